@@ -5,6 +5,7 @@
 package zzverif
 
 import (
+	"runtime"
 	"encoding/hex"
 	"fmt"
 	"math"
@@ -132,7 +133,7 @@ func NowCount() int                 { return 0 }
 func TickBudget(n int)              {}
 func OpaqueLen(n int)               {}
 func Goroutines() int               { return 0 }
-func Spawned() int                  { return 0 }
+func Spawned() int                  { return runtime.NumGoroutine() }
 func AfterFuncs() int               { return 0 }
 func AfterFuncDelay(i int) int64    { return 0 }
 func AfterFuncStopped(i int) bool   { return false }
